@@ -321,6 +321,8 @@ def after_op(rec, reqs, cfg):
     from ombott.request_pkg.request import Request
     from ombott.request_pkg.helpers import FormsDict
     for rq in reqs:
+        if rq is None:
+            continue
         env = rq.environ
         up = env.get(CACHE + 'urlparts')
         if isinstance(up, tuple):
@@ -373,19 +375,30 @@ def new_request(cfg, env, stream):
 
 
 def apply_op(reqs, op):
-    """one operation on the real requests; returns the canonical answer for a read, else None"""
+    """one operation on the real requests; returns the canonical answer for a read, `x:<Class>` when an assignment,
+    a deletion or a copy raised (the model knows no such outcome), else None"""
     k, i = op[0], op[1]
-    rq = reqs[i]
+    rq = reqs[i] if i < len(reqs) else None
+    if rq is None:
+        if k == 'c':
+            reqs.append(None)
+        return 'x:NoRequest'
     if k == 'r':
         return read_attr(rq, op[2])
-    if k == 's':
-        rq[op[2]] = op[3]
-    elif k == 'i':
-        rq['wsgi.input'] = core.SchedStream(op[2], op[3])
-    elif k == 'd':
-        del rq[op[2]]
-    elif k == 'c':
-        reqs.append(rq.copy())
+    try:
+        if k == 's':
+            rq[op[2]] = op[3]
+        elif k == 'i':
+            rq['wsgi.input'] = core.SchedStream(op[2], op[3])
+        elif k == 'd':
+            del rq[op[2]]
+        elif k == 'c':
+            reqs.append(None)
+            reqs[-1] = rq.copy()
+    except core.Hang:
+        raise
+    except Exception as e:
+        return 'x:' + exc_name(e)
     return None
 
 
@@ -404,7 +417,7 @@ def run_real(cfg, env, stream, ops, nocache=False):
     outs = []
     with Patched(rec):
         for op in ops:
-            if nocache and op[0] == 'r':
+            if nocache and op[0] == 'r' and op[1] < len(reqs) and reqs[op[1]] is not None:
                 wipe_caches(reqs[op[1]])
             r = core.with_timeout(lambda: apply_op(reqs, op), 10)
             if r is not None:
@@ -416,6 +429,8 @@ def run_real(cfg, env, stream, ops, nocache=False):
 
 def close_all(reqs):
     for rq in reqs:
+        if rq is None:
+            continue
         b = rq.environ.get(CACHE + 'body')
         if b is not None and not isinstance(b, io.BytesIO):
             try:
@@ -594,6 +609,8 @@ def gen_ops(rng, check, cfg, env, stream, n_ops, safe_bias):
     ops = []
     for _ in range(n_ops):
         i = rng.randrange(len(reqs)) if rng.random() < .7 else len(reqs) - 1
+        if reqs[i] is None:
+            i = 0
         r = rng.random()
         if r < .5:
             attr = rng.choice(fattrs) if rng.random() < .7 else rng.choice(ATTRS)
@@ -745,7 +762,10 @@ def oracle_case(cfg, env, stream, ops, domain, pid, stats=None):
     try:
         for n, op in enumerate(ops):
             k, i = op[0], op[1]
-            rq = reqs[i]
+            rq = reqs[i] if i < len(reqs) else None
+            if rq is None:
+                core.with_timeout(lambda: apply_op(reqs, op), 10)
+                continue
             if k == 'r':
                 attr = op[2]
                 if attr not in domain:
@@ -786,7 +806,10 @@ def oracle_case(cfg, env, stream, ops, domain, pid, stats=None):
                     j = len(reqs)
                     cause[j] = 'copy'
                     tr.copied(i, j)
-                core.with_timeout(lambda: apply_op(reqs, op), 10)
+                x = core.with_timeout(lambda: apply_op(reqs, op), 10)
+                if x is not None:
+                    return (f'{pid}:{ {"s": "setitem", "i": "setitem", "d": "delitem", "c": "copy"}[k] }:raises',
+                            f'op {n} of {",".join(op_token(o) for o in ops)} raised {x[2:]}')
     finally:
         close_all(reqs)
     return None
@@ -804,6 +827,11 @@ def search_stream(rng, n, check, pid, stats, seeds=()):
     for _ in range(n):
         cases.append(gen_case(rng, check, safe_bias=.9))
     dom = DOMAIN[check]
+    if check == 'C04':
+        try:
+            residue_witnesses(rng, stats)
+        except Exception as e:
+            stats['envcache:residue-error'] = f'{type(e).__name__}: {e}'
     for c in cases:
         evals += 1
         try:
@@ -834,6 +862,45 @@ def guided_cases(rng):
             env2 = {k: v for k, v in env.items() if k not in ('CONTENT_LENGTH', 'CONTENT_TYPE', 'QUERY_STRING', 'HTTP_COOKIE')}
             out.append((cfg, env2, stream, [('r', 0, a), ('s', 0, key, vals[2]), ('r', 0, a)]))
     return out
+
+
+def residue_witnesses(rng, stats, tries=10):
+    """the pinned pairs are residue, not fiction: for each one look for a read / assign / read sequence on the real
+    code whose second answer differs from a brand-new request's.  Counted in the evidence, never a finding."""
+    confirmed = 0
+    for attr, key in sorted(PINNED_STALE):
+        hit = False
+        for _ in range(tries):
+            cfg, env, stream = gen_initial(rng, 'C04')
+            cfg = dict(cfg, memfile=102400, maxbody=None, xsn=True)
+            if key in ('CONTENT_LENGTH', 'CONTENT_TYPE'):
+                env = dict(env, CONTENT_TYPE='application/x-www-form-urlencoded', CONTENT_LENGTH='7')
+                env.pop('HTTP_TRANSFER_ENCODING', None)
+                stream = (b'x=1&y=2', [])
+                if attr == 'json':
+                    env = dict(env, CONTENT_TYPE='application/json', CONTENT_LENGTH='9')
+                    stream = (b'{"k":"v"}', [])
+            if key == 'HTTP_X_SCRIPT_NAME':
+                env = dict(env, SCRIPT_NAME='')
+            reqs = [new_request(cfg, env, stream)]
+            try:
+                a0 = read_attr(reqs[0], attr)
+                apply_op(reqs, ('s', 0, key, value_for(rng, key)))
+                fr = fresh_request(reqs[0], cfg)
+                if read_attr(reqs[0], attr) != read_attr(fr, attr):
+                    hit = True
+                close_all([fr])
+            except Exception:
+                pass
+            finally:
+                close_all(reqs)
+            if hit:
+                break
+        confirmed += hit
+        if not hit:
+            bump(stats, 'envcache:residue-not-exhibited:' + attr + '/' + key)
+    stats['envcache:residue-pairs'] = len(PINNED_STALE)
+    stats['envcache:residue-exhibited-on-real-code'] = confirmed
 
 
 def directed_cases():
